@@ -2,13 +2,16 @@ import Oracle.Lib
 import Refinery.Model.Usage
 /-
 Oracle for the usage tracker + agent send loop (C34).
-case args: mode=agent|raw
+case args: mode=agent|raw|loop
 ops:  add <sig> <reading> | report | sent | fail | tick <script> <mids>
       script = one letter per SendCustomMessage answer: a accepted, p pending (channel closed later),
       e error, A accepted / P pending with a channel that is never closed before shutdown
 obs:  add/sent/fail : <state>
       report        : ok r=<points> <state> | nodata <state> | negative <state>
       tick          : res=<nil|nodata|negative|senderr|pending|ctx|dead> sends=<n> made=<points|none> got=<points|none> <state>
+loop mode (the real reportUsagePeriodically goroutine on the fake clock, one-slot client):
+      ops  add <sig> <reading> | ltick <a|e> | confirm <a|e> | other
+      obs  [closed=<none|report|other>] [other=<ok|busy>] [acc=<points;points|none> sends=<n>] insend=<n> slot=<free|report|other> <state>
 <state>  = cur=<sig:v,…|-> last=<…> lu=<v0,v1,v2,v3>
 <points> = <sig:v1+v2,…> (values ascending)
 -/
@@ -69,29 +72,71 @@ def parseMids (s : String) : Option (List (Nat × Nat)) :=
         | _, _ => none
       | _ => none
 
-/-- model state + "the agent was shut down" (a hanging answer was consumed: the real loop's
-behaviour after that is a race between `ctx.Done()` and the channel, the harness does not run it) -/
-def usageStep (sd : St × Bool) (op : List String) (_ : List (List String)) : (St × Bool) × Option String :=
-  let (st, dead) := sd
+structure OSt where
+  st : St := {}
+  dead : Bool := false      -- the agent was shut down (a hanging answer was consumed: the real loop's
+                            -- behaviour after that is a race, the harness does not run it)
+  loop : Bool := false      -- mode=loop: the tracker state is `l.st`
+  l : LSt := {}
+
+def loopInfo (l : LSt) : String :=
+  let ins := match l.phase with | .idle => 0 | _ => 1
+  let slot := match l.slot with | .free => "free" | .other => "other" | .report _ => "report"
+  s!"insend={ins} slot={slot} {stateStr l.st}"
+
+def accStr (acc : List Report) : String :=
+  if acc.isEmpty then "none" else ";".intercalate (acc.map pointsStr)
+
+def loopStep (sd : OSt) (op : List String) : OSt × Option String :=
+  let l := sd.l
+  let flag (x : String) : Option Bool := if x == "a" then some true else if x == "e" then some false else none
   match op with
   | ["add", s, v] => match s.toNat?, v.toNat? with
     | some s, some v =>
-      if s < nsig then let st' := (step variant st (.add s v)).1; ((st', dead), some (stateStr st'))
+      if s < nsig then let r := lstep variant l (.add s v); ({ sd with l := r.l }, some (loopInfo r.l))
+      else (sd, some "bad-op")
+    | _, _ => (sd, some "bad-op")
+  | ["ltick", x] => match flag x with
+    | some a =>
+      let r := lstep variant l (.tick a)
+      ({ sd with l := r.l }, some s!"acc={accStr r.acc} sends={r.sends} {loopInfo r.l}")
+    | none => (sd, some "bad-op")
+  | ["confirm", x] => match flag x with
+    | some a =>
+      let closed := match l.slot with | .free => "none" | .other => "other" | .report _ => "report"
+      let r := lstep variant l (.confirm a)
+      ({ sd with l := r.l }, some s!"closed={closed} acc={accStr r.acc} sends={r.sends} {loopInfo r.l}")
+    | none => (sd, some "bad-op")
+  | ["other"] =>
+    let ok := match l.slot with | .free => "ok" | _ => "busy"
+    let r := lstep variant l .other
+    ({ sd with l := r.l }, some s!"other={ok} {loopInfo r.l}")
+  | _ => (sd, some "bad-op")
+
+def usageStep (sd : OSt) (op : List String) (_ : List (List String)) : OSt × Option String :=
+  if sd.loop then loopStep sd op else
+  let st := sd.st
+  let dead := sd.dead
+  let mk (st' : St) (d : Bool) : OSt := { sd with st := st', dead := d }
+  match op with
+  | ["add", s, v] => match s.toNat?, v.toNat? with
+    | some s, some v =>
+      if s < nsig then let st' := (step variant st (.add s v)).1; (mk st' dead, some (stateStr st'))
       else (sd, some "bad-op")
     | _, _ => (sd, some "bad-op")
   | ["report"] =>
     match step variant st .report with
-    | (st', .report r) => ((st', dead), some s!"ok r={pointsStr r} {stateStr st'}")
-    | (st', .noData) => ((st', dead), some s!"nodata {stateStr st'}")
-    | (st', .negative) => ((st', dead), some s!"negative {stateStr st'}")
-    | (st', .none) => ((st', dead), some "bad-op")
-  | ["sent"] => let st' := (step variant st .sent).1; ((st', dead), some (stateStr st'))
-  | ["fail"] => let st' := (step variant st .fail).1; ((st', dead), some (stateStr st'))
+    | (st', .report r) => (mk st' dead, some s!"ok r={pointsStr r} {stateStr st'}")
+    | (st', .noData) => (mk st' dead, some s!"nodata {stateStr st'}")
+    | (st', .negative) => (mk st' dead, some s!"negative {stateStr st'}")
+    | (st', .none) => (mk st' dead, some "bad-op")
+  | ["sent"] => let st' := (step variant st .sent).1; (mk st' dead, some (stateStr st'))
+  | ["fail"] => let st' := (step variant st .fail).1; (mk st' dead, some (stateStr st'))
   | ["tick", sc, mids] =>
     match parseScript sc, parseMids mids with
     | some script, some ms =>
       if dead then (sd, some s!"res=dead sends=0 made=none got=none {stateStr st}")
-      else let (st', d, obs) := tick st script ms; ((st', d), some obs)
+      else let (st', d, obs) := tick st script ms; (mk st' d, some obs)
     | _, _ => (sd, some "bad-op")
   | _ => (sd, some "bad-op")
 
@@ -111,6 +156,7 @@ structure MSt where
   carried : Vec := vzero       -- implementation's lastDataPoints just before the latest report
   disc : Vec := vzero          -- growth − sent − waiting at the last check (already reported)
   off : Bool := false          -- completeSend with nothing held: not a history of the agent
+  overlap : Bool := false      -- loop mode: two sendUsageReport calls were in progress at once
 
 def parseMap (s : String) : Vec :=
   if s == "-" then vzero else
@@ -180,6 +226,33 @@ def usageMon (m : MSt) (op : List String) (_ : List (List String)) (obs : Option
       let cur := parseMap c
       let last := parseMap l
       let fin (p : MSt × List Fail) : MSt × List Fail := ({ p.1 with pcur := cur, plast := last }, p.2)
+      match kv toks "insend" with
+      | some ins =>
+        -- loop mode: the real reporting loop; conservation is judged at quiescence (no
+        -- sendUsageReport in progress, no report occupying the client's slot)
+        let n := ins.toNat?.getD 0
+        let m := match op with
+          | ["add", s, v] => noteAdd m (s.toNat?.getD 0) (v.toNat?.getD 0)
+          | _ => m
+        let accs := match kv toks "acc" with
+          | some a => if a == "none" then [] else (a.splitOn ";").map parsePoints
+          | none => []
+        let (m, f1) := accs.foldl (fun (p : MSt × List Fail) a => match a with
+          | some pts => ({ p.1 with sent := vadd p.1.sent (pointsTotal pts) }, p.2 ++ negFails "report" pts)
+          | none => (p.1, p.2 ++ [{ prop := "C34", sig := "C34:unreadable-report", what := o : Fail }])) (m, [])
+        let m := { m with overlap := m.overlap || n ≥ 2 }
+        if n == 0 && kv toks "slot" != some "report" then
+          let (m, f2) := check m cur last false
+          let f2 := f2.map fun f =>
+            if !m.overlap then f
+            else if f.sig.startsWith "C34:double-count" then
+              { f with sig := "C34:double-count:overlapping-sends", what := "reports were built while an earlier one was unconfirmed; " ++ f.what }
+            else if f.sig.startsWith "C34:usage-lost" then
+              { f with sig := "C34:usage-lost:overlapping-sends", what := "reports were built while an earlier one was unconfirmed; " ++ f.what }
+            else f
+          fin (m, f1 ++ f2)
+        else fin (m, f1)
+      | none =>
       match op with
       | ["add", s, v] =>
         let m := noteAdd m (s.toNat?.getD 0) (v.toNat?.getD 0)
@@ -223,8 +296,8 @@ def usageMon (m : MSt) (op : List String) (_ : List (List String)) (obs : Option
       | _ => fin (m, [])
     | _, _ => (m, [])
 
-def comp : Component (St × Bool) MSt where
-  init := fun _ => ({}, false)
+def comp : Component OSt MSt where
+  init := fun args => { loop := (kv args "mode") == some "loop" }
   step := usageStep
   minit := fun _ => {}
   mon := usageMon
